@@ -2,6 +2,7 @@
 C27 — property theorems.
 -/
 import TornadoModel.C27.Lemmas
+import TornadoModel.C27.Inv2
 namespace TornadoModel.C27
 open Spec
 
@@ -246,12 +247,33 @@ def invalid_range_ignored_full : Prop :=
   ∀ (f : File) (req : Req) (h : Str), req.range = some h → validRange h = false →
     respond f req = respond f { req with range := none }
 
-/-- The same under the side condition that excludes the known finding (`bytes=N` without `-`).
-Stated, exercised on every case by the correspondence oracle, not yet proved in Lean (tie only);
-`unparsed_range_ignored` + `honoured_fields_digits` are its proved core. -/
-def invalid_range_ignored_goal : Prop :=
-  ∀ (f : File) (req : Req) (h : Str), req.range = some h → hasDash h = true → validRange h = false →
-    respond f req = respond f { req with range := none }
+/-- An honoured header (parsed to something other than `(None, None)`) whose value contains a `-` is a valid
+single byte-range of the RFC 9110 grammar `Spec.validRange`: on headers with a dash the `partition`/`strip`
+parser accepts nothing the grammar rejects. -/
+theorem honoured_dash_valid (h : Str) (s e : Option Int) (hp : parseRange h = some (s, e))
+    (hne : ¬ (s = none ∧ e = none)) (hd : hasDash h = true) : validRange h = true := by
+  obtain ⟨hu, h1, h2, hnb⟩ := honoured_fields_digits h s e hp hne
+  have hdash : 45 ∈ (partition 61 h).2 := by
+    unfold hasDash at hd
+    exact List.contains_iff_mem.mp hd
+  exact validRange_of_fields h hu hdash (fun x hx => List.all_eq_true.mp h1 x hx)
+    (fun x hx => List.all_eq_true.mp h2 x hx) hnb
+
+/-- **invalid_range_ignored.**  The clause under the side condition that excludes the known finding (`bytes=N`
+without `-`): every Range header whose value contains a `-` and that is not a syntactically valid single
+byte-range (`Spec.validRange`) leaves the response exactly as it is without a Range header. -/
+theorem invalid_range_ignored (f : File) (req : Req) (h : Str) (hr : req.range = some h)
+    (hd : hasDash h = true) (hv : validRange h = false) :
+    respond f req = respond f { req with range := none } := by
+  apply unparsed_range_ignored f req h hr
+  cases hp : parseRange h with
+  | none => exact Or.inl hp
+  | some se =>
+    obtain ⟨s, e⟩ := se
+    by_cases hne : s = none ∧ e = none
+    · right; rw [hp, hne.1, hne.2]
+    · have := honoured_dash_valid h s e hp hne hd
+      rw [hv] at this; cases this
 
 def witnessFile : File := { content := [10, 20, 30], etag := [34, 34], lastModified := [], ctype := [] }
 def witnessHeader : Str := [98, 121, 116, 101, 115, 61, 49]   -- "bytes=1"
@@ -267,6 +289,10 @@ theorem invalid_range_ignored_refuted : ¬ invalid_range_ignored_full := by
 /-- non-vacuity: an invalid header with a dash that is ignored, a valid one that is honoured -/
 example : Ignored [98, 121, 116, 101, 115, 61, 43, 49, 45, 50] := by left; decide   -- "bytes=+1-2"
 example : validRange [98, 121, 116, 101, 115, 61, 43, 49, 45, 50] = false := by decide
+example : hasDash [98, 121, 116, 101, 115, 61, 43, 49, 45, 50] = true := by decide
+example : hasDash [32, 98, 121, 116, 101, 115, 9, 61, 32, 49, 32, 45, 9, 50, 32] = true := by decide   -- " bytes\t= 1 -\t2 "
+example : parseRange [32, 98, 121, 116, 101, 115, 9, 61, 32, 49, 32, 45, 9, 50, 32] = some (some 1, some 3) := by decide
+example : validRange [32, 98, 121, 116, 101, 115, 9, 61, 32, 49, 32, 45, 9, 50, 32] = true := by decide
 example : parseRange [98, 121, 116, 101, 115, 61, 49, 45, 50] = some (some 1, some 3) := by decide   -- "bytes=1-2"
 example : validRange [98, 121, 116, 101, 115, 61, 49, 45, 50] = true := by decide
 example : (respond witnessFile { range := some [98, 121, 116, 101, 115, 61, 49, 45, 49] }).status = 206 := by decide
